@@ -22,6 +22,8 @@ def _body(cs, n, susp, j, k):
     pause = P("pause", 0)
     use_lock = P("lock", True)
     items = [Item(0, "0.%d" % i) for i in range(n)]
+    if P("none_item") is not None and P("none_item") < n:
+        items[P("none_item")] = None  # None is an item like any other
     W = World("a", susp=susp)
     lock = Lock(W, enter_susp=P("lock_susp", 0), exit_susp=P("lock_exit_susp", 0)) if use_lock else None
     src = W.source(items, P("fl", "acls"))
@@ -157,6 +159,8 @@ def jobs(tier):
     for closeat in (3, 8):
         J.append({"module": "c20", "fn": "h_tee", "part": {"L": 8, "closeat": closeat}, "timeout": T})
     add(C=2, N=2, SUSP=1, lock=True, pause=0, fl="adual")
+    add(C=2, N=2, SUSP=1, lock=True, pause=0, fl="acls", none_item=0)
+    add(C=2, N=2, SUSP=0, lock=False, pause=1, fl="agen", none_item=1)
     add(C=2, N=1, SUSP=2, lock=True, pause=1, fl="adual")
     if not q:
         add(C=4, N=1, SUSP=1, lock=True, pause=0, fl="acls")
